@@ -180,6 +180,18 @@ def c19(ck):
         while not os.path.exists(path) and time.time() - t0 < 5:
             time.sleep(0.01)
         idl = open(os.path.join(REPO, "varlink-certification", "src", "org.varlink.certification.varlink")).read()
+        # 0. a freshly started service (no client has called Start yet): a step with an unknown client id is answered with an
+        #    error reply, and the service goes on serving
+        c0 = Conn(path)
+        ck.case("fresh-server|Test01-unknown-id")
+        try:
+            reps0 = c0.call({"method": "org.varlink.certification.Test01", "parameters": {"client_id": "0123456789abcdef"}})
+        except Exception as e:
+            reps0 = [None]
+        if not (reps0 and isinstance(reps0[-1], dict) and reps0[-1].get("error") is not None):
+            ck.failures.append({"what": "the very first request to a fresh certification service - Test01 with an unknown client id - was not answered with an error reply",
+                                "replies": reps0})
+        c0.close()
         # 1. the canonical sequence succeeds
         c = Conn(path)
         cid, prev = run_prefix(c, 1)
